@@ -115,6 +115,14 @@ var progSpecs = []progSpec{
 	{"component_definition", "", "NewProperty", "prop_NewProperty", ""},
 	{"container/processors", "", "NewValueAwarePostProcessors", "scan_valueExtract", "ExtractHandler"},
 	{"container/processors", "", "NewPropertiesAwarePostProcessors", "scan_markerExtract", "ExtractHandler"},
+	{"component_definition", "Property", "IsRequired", "prop_IsRequired", ""},
+	{"component_definition", "Property", "SetConfiguration", "prop_SetConfiguration", ""},
+	{"component_definition", "Property", "Unmarshall", "prop_Unmarshall", ""},
+	{"component_definition", "", "newDecodeConfig", "prop_newDecodeConfig", ""},
+	{"component_definition", "Property", "Args", "prop_Args", ""},
+	{"component_definition", "Property", "SetArg", "prop_SetArg", ""},
+	{"component_definition", "Property", "AddArg", "prop_AddArg", ""},
+	{"util/reflectx", "", "SetValue", "reflectx_SetValue", ""},
 }
 
 // conversions whose single argument is passed through unchanged
